@@ -581,6 +581,15 @@ func ruleContainsUnconditional(p *Program, r *Result) {
 				good = false
 				why = fmt.Sprintf("the test at %s decides whether a prefix is compared at all", p.Pos(iff.Pos()))
 			}
+			// the prefixes compared are all the configured ones: the loop runs over one collection held in a field
+			// (not over a list chosen by some property of the address)
+			if coll, ok := prefixCollectionOf(c.Common().Args[0]); !ok {
+				good = false
+				why = "the prefix compared does not come from a loop over a collection"
+			} else if _, _, isField := loadedField(coll); !isField {
+				good = false
+				why = fmt.Sprintf("the prefixes compared are not the whole configured collection held in one field but %s: a prefix of the other part is never asked", describeValue(coll))
+			}
 			// argument: the IP of the remote TCP address
 			arg := c.Common().Args[len(c.Common().Args)-1]
 			if fl, _, ok := loadedField(arg); !ok || fl.Name() != "IP" {
@@ -827,4 +836,78 @@ func isAscendingIndex(v ssa.Value) bool {
 		return true
 	}
 	return false
+}
+
+// prefixCollectionOf traces the *IPNet a Contains call is made on back to the collection the loop runs over:
+// through ParseCIDR of the element, the element load s[i], the key/value of a map range.
+func prefixCollectionOf(v ssa.Value) (ssa.Value, bool) {
+	for i := 0; i < 8; i++ {
+		switch x := v.(type) {
+		case *ssa.Extract:
+			switch t := x.Tuple.(type) {
+			case *ssa.Call:
+				if isFuncNamed(t.Common().StaticCallee(), "net", "ParseCIDR") && len(t.Common().Args) == 1 {
+					v = t.Common().Args[0]
+					continue
+				}
+				return nil, false
+			case *ssa.Next:
+				if rg, ok := t.Iter.(*ssa.Range); ok {
+					return rg.X, true
+				}
+				return nil, false
+			}
+			return nil, false
+		case *ssa.UnOp:
+			if x.Op != token.MUL {
+				return nil, false
+			}
+			if ia, ok := x.X.(*ssa.IndexAddr); ok {
+				return ia.X, true
+			}
+			// a local copy of the element
+			if a, ok := x.X.(*ssa.Alloc); ok {
+				st := allocStores(a)
+				if len(st) == 1 {
+					v = st[0].Val
+					continue
+				}
+			}
+			return nil, false
+		case *ssa.Phi:
+			// the nil-guarded form: ipNet != nil && ...
+			var next ssa.Value
+			for _, e := range x.Edges {
+				if isNilConst(e) {
+					continue
+				}
+				if next != nil && next != e {
+					return nil, false
+				}
+				next = e
+			}
+			if next == nil {
+				return nil, false
+			}
+			v = next
+			continue
+		case *ssa.ChangeType:
+			v = x.X
+			continue
+		}
+		return nil, false
+	}
+	return nil, false
+}
+
+func describeValue(v ssa.Value) string {
+	switch x := v.(type) {
+	case *ssa.Phi:
+		return fmt.Sprintf("one of %d alternatives chosen by a condition", len(x.Edges))
+	case *ssa.Call:
+		return "the result of " + shortCall(x)
+	case *ssa.Extract:
+		return "a result of a call"
+	}
+	return fmt.Sprintf("a %T", v)
 }
